@@ -183,6 +183,16 @@ def _obs_var(L, stores, org):
     return best[0][0]
 
 
+def _different_value(org, expr, at, wanted) -> bool | None:
+    """True when ``expr`` is known to be another value than the protocol value ``wanted``: it depends on other step / reset
+    positions.  None when that cannot be told (depends only on the wanted value - possibly an identity wrapper - or on untraceable names)."""
+    d = org.deps(expr, at)
+    if any(x[0] == "unknown" for x in d):
+        return None
+    others = {x for x in d if x[0] in ("step", "reset") and x[:2] != wanted[:2]}
+    return True if others else None
+
+
 def run(ck, repo: Repo, tier: str):
     cfgs = {}
     loops = []
@@ -190,9 +200,13 @@ def run(ck, repo: Repo, tier: str):
         loops.append(find_env_loop(repo, q, cfgs))
     ck.floor("env-loops", len(loops), 19)
     n_sites = 0
-    for L in loops:
+    n_sites_box = [0]
+
+    def one_loop(L):
+        n_sites = 0
         cfg, S = L.cfg, L.step_node
         org = Origins(L)
+        org.repo = repo
         site = L.qual
         stores = _store_sites(repo, L, ck)
         n_sites += len(stores)
@@ -216,26 +230,31 @@ def run(ck, repo: Repo, tier: str):
                     want = {("step", STEP_POS[role])}
                     ok = (o == want) and after_S
                     why = ""
+                    if o != want and Origins.unknown(o) and _different_value(org, arg, nid, ("step", STEP_POS[role])) is None:
+                        raise AnalysisError(f"{site}: the {role} argument `{short(arg, 50)}` of the store cannot be traced to the step results ({sorted(map(str, Origins.unknown(o)))[:2]})")
                     if o != want:
                         why = f"origin of the {role} argument is {sorted(map(str, o))}, expected position {STEP_POS[role]} of `{short(L.step_stmt, 60)}`"
                     elif not after_S:
                         why = "store site is not dominated by env.step of the same iteration (value of a previous step)"
                     ck.ob("R1-store-role", site, f"{role}:{desc.split('(')[0]}", ok, f"{role} <- {short(arg, 50)} at {desc}", why, where)
                 elif role == "A":
-                    b = strip_wrappers(arg)
-                    if isinstance(b, ast.Name):
-                        same = rd[nid].get(b.id, frozenset()) == act_defs_at_S if b.id == avar else org.of_expr(arg, nid) == org.of_name(avar, S)
-                        # no redefinition of the action between step and store
-                        between = _defs_between(cfg, S, nid, b.id) if after_S else _defs_between(cfg, nid, S, b.id)
-                        ok = bool(same) and not between
-                        why = "" if ok else f"stored action `{b.id}` does not have the definitions of the action passed to env.step (`{avar}`)" + (f"; redefined at line(s) {between}" if between else "")
-                    else:
-                        ok, why = False, f"stored action is the expression {short(arg, 40)}, not the variable passed to env.step"
+                    # the stored action is the value passed to env.step (same provenance: same definitions, through copies / records)
+                    o_st = org.of_expr(arg, nid)
+                    o_act = org.of_expr(L.step_call.args[0], S)
+                    ok = bool(o_st) and o_st == o_act
+                    why = "" if ok else f"stored action `{short(arg, 40)}` does not have the provenance of the action passed to env.step (`{avar}`): {sorted(map(str, o_st))[:2]} vs {sorted(map(str, o_act))[:2]}"
+                    if not ok and any(x[0] in ("unpack", "for", "with", "global", "attr-in") for x in o_st | o_act):
+                        raise AnalysisError(f"{site}: the stored action `{short(arg, 40)}` cannot be related to the action passed to env.step")
                     ck.ob("R1-store-role", site, f"A:{desc.split('(')[0]}", ok, f"A <- {short(arg, 50)} at {desc}", why, where)
                 elif role == "O":
                     b = strip_wrappers(arg)
                     if not isinstance(b, ast.Name):
-                        ck.ob("R2-obs-provenance", site, f"O-expr:{desc.split('(')[0]}", False, f"O <- {short(arg, 50)}", "stored observation is not a variable", where)
+                        # a field of a record / another expression: judged by provenance
+                        o_st, o_ref = org.of_expr(arg, nid), org.of_name(ovar, S)
+                        if Origins.unknown(o_st) or Origins.unknown(o_ref):
+                            raise AnalysisError(f"{site}: the stored observation `{short(arg, 50)}` cannot be traced (unrecognised form)")
+                        ck.ob("R2-obs-provenance", site, f"O-same-as-step:{desc.split('(')[0]}", o_st == o_ref, f"O <- {short(arg, 50)} at {desc}",
+                              "" if o_st == o_ref else f"the stored observation originates in {sorted(map(str, o_st))}, the observation env.step acted on in {sorted(map(str, o_ref))}", where)
                         continue
                     if b.id != ovar:
                         ck.ob("R2-obs-provenance", site, f"O-is-current-observation:{desc.split('(')[0]}", False, f"O <- {short(arg, 50)} at {desc}",
@@ -259,6 +278,9 @@ def run(ck, repo: Repo, tier: str):
             o = org.of_def(d, set())
             bad = [x for x in o if not (x[0] == "reset" and x[1] == 0) and x != ("step", 0) and x[0] != "param"]
             node = cfg.nodes[dn]
+            if bad and Origins.unknown(bad) and not (d.value is not None and isinstance(d.value, ast.AST) and not isinstance(d.value, ast.stmt) and _different_value(org, d.value, dn, ("step", 0)) is True
+                                                     and _different_value(org, d.value, dn, ("reset", 0)) is True):
+                raise AnalysisError(f"{site}: observation `{nm}` is defined by `{short(node.ast, 60)}`, whose value cannot be traced to reset / step results (unrecognised form)")
             ck.ob("R2-obs-provenance", site, f"def:{_def_kind(L, d)}", not bad,
                   f"`{nm}` defined by `{short(node.ast, 60) if node.kind != 'entry' else 'parameter'}`",
                   "" if not bad else f"observation definition originates in {sorted(map(str, bad))} (neither reset()[0], step()[0] nor a parameter)",
@@ -272,16 +294,25 @@ def run(ck, repo: Repo, tier: str):
             rn = cfg.nodes[r]
             d = cfg.get_def(r, ovar)
             binds = d is not None and org.of_def(d, set()) == {("reset", 0, r)}
+            if not binds:
+                # bound through copies (helper results, tuple assignments): a definition of the observation variable whose only origin is this reset
+                via = [(i, d2) for i, d2 in in_loop_defs if org.of_def(d2, set()) == {("reset", 0, r)} and cfg.paths_avoiding(r, i, {S}) is not None]
+                if via:
+                    binds = True
+                    r_bind = via[0][0]
+                elif any(Origins.unknown(org.of_def(d2, set())) for i, d2 in in_loop_defs):
+                    raise AnalysisError(f"{site}: cannot tell whether `{short(rn.ast, 50)}` binds the observation variable `{ovar}` (values pass through untraceable definitions)")
             ck.ob("R3-boundary", site, "reset-binds-observation", binds, f"`{short(rn.ast, 60)}`",
                   "" if binds else f"in-loop reset does not bind the observation variable `{ovar}` (its observation is discarded)", loc(L.mi, rn.ast))
             if not binds:
                 continue
             # no other definition reachable from r without passing S
             offenders = []
+            r_from = locals().get("r_bind", r) if not (d is not None and org.of_def(d, set()) == {("reset", 0, r)}) else r
             for i, d2 in in_loop_defs:
-                if i == r or i == S:
+                if i == r or i == S or i == r_from:
                     continue
-                p = cfg.paths_avoiding(r, i, {S})
+                p = cfg.paths_avoiding(r_from, i, {S})
                 if p is not None:
                     offenders.append((i, p))
             ok = not offenders
@@ -309,6 +340,8 @@ def run(ck, repo: Repo, tier: str):
         nextvar = L.pos.get(0)
         used = _obs_uses_in_action(cfg, L, avar, ovar, nextvar, body)
         pol = [u for u in used if u[0] == ovar]
+        if not pol and not any(isinstance(x, ast.Name) and x.id == ovar and isinstance(x.ctx, ast.Load) for nid_ in body if cfg.nodes[nid_].ast is not None for x in ast.walk(cfg.nodes[nid_].ast)):
+            raise AnalysisError(f"{site}: the observation variable `{ovar}` is never read in the loop (the observation is kept elsewhere: unrecognised form)")
         ck.ob("R4-act-on-current", site, "policy-sees-observation", bool(pol), f"action `{avar}` computed from `{ovar}` at {len(pol)} site(s)",
               "" if pol else f"no definition of the action reaching env.step reads the current observation `{ovar}`", loc(L.mi, L.step_stmt))
         for name, at, expr in used:
@@ -323,6 +356,11 @@ def run(ck, repo: Repo, tier: str):
             ck.ob("R4-act-on-current", site, "same-observation-as-stored", ok, f"`{short(expr, 60)}`",
                   "" if ok else f"the observation read when acting (defs at lines {_lines(cfg, here)}) differs from the one stored (lines {_lines(cfg, defs_at_S)})",
                   loc(L.mi, node.ast))
+        n_sites_box[0] += n_sites
+
+    for L in loops:
+        ck.guard(one_loop, L)
+    n_sites = n_sites_box[0]
     ck.count("store-sites", n_sites)
     ck.floor("store-sites", n_sites, 24)
 
